@@ -129,7 +129,7 @@ struct nsim_runcfg {
 	uint32_t mu_wlock, mu_rlock_field, mu_spinlock; /* mutex word layout from the repo headers */
 	const char *prop_force;      /* when set, every violation of the run is charged to this property */
 	int fail_alloc_index;        /* C19: the k-th constructor allocation fails (0: none) */
-	const char *tolerate_dead_reads_in; /* a READ of reclaimed memory made inside a function whose name contains this string ends the run as discarded (RV_LIMIT) instead of as a violation */
+	const char *tolerate_dead_reads_in; /* a READ of reclaimed memory made while the fibre is inside a function, or a harness op, whose name contains this string ends the run as discarded (RV_LIMIT) instead of as a violation */
 	int extra_steps;             /* added to the step budget of the drain phase (families whose legal programs are very long) */
 	int policy_noise;            /* policy 4 only: probability (in 1/10000 per scheduling decision) of a uniformly random pick instead of the highest priority */
 	int policy;                  /* 0: seeded swarm; 4: strict priorities given by nsim_set_prio(); 5: swarm restricted to fair policies (uniform, sticky) */
